@@ -137,6 +137,12 @@ pub fn gen(rng: &mut Rng, n: usize, out: &mut Vec<String>) {
                 break;
             }
             if rng.chance(1, 7) {
+                if let Some(l) = liq_case(&s, rng, stranger) {
+                    out.push(l);
+                }
+                continue;
+            }
+            if rng.chance(1, 7) {
                 if let Some(l) = bkr_case(&s, rng, stranger, risk_admin) {
                     out.push(l);
                 }
@@ -293,6 +299,202 @@ fn bkr_case(s: &Scen, rng: &mut Rng, stranger: Pubkey, risk_admin: Pubkey) -> Op
                 "{} => ok {} {} {} {} {} {}",
                 head, slots_line(&a1, &keys), B::from_bank(&bank1).line(), bank1.last_update, iv0 - w.token_amount(&h.insurance_vault),
                 bank1.config.operational_state as u8, a1.account_flags
+            ))
+        }
+        Err(ExecErr::Custom(code)) if code >= 6000 => Some(format!("{} => err {}", head, code)),
+        Err(ExecErr::Panic) => Some(format!("{} => panic", head)),
+        Err(_) => None,
+    }
+}
+
+fn acct_line(a: &MarginfiAccount, key: &Pubkey, keys: &mut Keys) -> String {
+    format!("{} {} {} {} {}", keys.any(key), keys.any(&a.group), keys.any(&a.authority), a.account_flags, slots_line(a, keys))
+}
+
+fn bank_line(w: &World, h: &crate::world::fixtures::BankHandle, g: &marginfi_type_crate::types::MarginfiGroup, keys: &mut Keys) -> String {
+    let b = w.bank(&h.bank);
+    let (tf_bps, tf_max) = w.transfer_fee_in_force(&h.mint);
+    format!(
+        "{} {} {} {} {} {} {} {} {} {} {}",
+        keys.bank(&h.bank), keys.any(&b.group), keys.any(&b.liquidity_vault), B::from_bank(&b).line(), b.last_update,
+        Ir::from_real(&b.config.interest_rate_config, g).line(), b.config.operational_state as u8,
+        bits(b.config.interest_rate_config.protocol_origination_fee), tf_bps, tf_max, (bits(b.config.asset_weight_init) == 0) as u8
+    )
+}
+
+/// `wd.liq`: the REAL lending_account_liquidate through dispatch: a borrower whose collateral was shrunk (or not), a second
+/// user as liquidator, seize amounts from zero to beyond the collateral, and the same refusal causes as above on either
+/// account, either bank, the group and the signer.
+fn liq_case(s: &Scen, rng: &mut Rng, stranger: Pubkey) -> Option<String> {
+    if s.users.len() < 2 || s.banks.len() < 2 { return None; }
+    // a liquidatee with a debt in L and a deposit in A
+    let mut cands = vec![];
+    for (ui, us) in s.users.iter().enumerate() {
+        let a = s.w.marginfi_account(&us.acct);
+        for (li, hl) in s.banks.iter().enumerate() {
+            for (ai, ha) in s.banks.iter().enumerate() {
+                if li == ai { continue; }
+                let debt = a.lending_account.get_balance(&hl.bank).map(|x| bits(x.liability_shares) >= ONE).unwrap_or(false);
+                let dep = a.lending_account.get_balance(&ha.bank).map(|x| bits(x.asset_shares) >= ONE).unwrap_or(false);
+                if debt && dep { cands.push((ui, ai, li)); }
+            }
+        }
+    }
+    let mut w = s.w.clone();
+    let (u, mut ai, li) = if !cands.is_empty() && rng.chance(3, 4) { *rng.pick(&cands) } else if rng.chance(1, 8) {
+        (rng.below(s.users.len() as u64) as usize, rng.below(s.banks.len() as u64) as usize, rng.below(s.banks.len() as u64) as usize)
+    } else {
+        // make a borrower through the real instructions: a deposit in A, then the largest of a few borrow sizes in L that
+        // the real risk gate lets through
+        let u = rng.below(s.users.len() as u64) as usize;
+        let ai = rng.below(s.banks.len() as u64) as usize;
+        let li = (ai + 1 + rng.below(s.banks.len() as u64 - 1) as usize) % s.banks.len();
+        let us = &s.users[u];
+        // (someone else provides the liquidity to borrow)
+        let other = &s.users[(u + 1) % s.users.len()];
+        let _ = w.exec(&ix::deposit(&s.banks[li], other.acct, other.wallet, other.toks[li], 5_000_000_000_000, None));
+        // (a deposit the borrower may still hold in L is taken out first: one side per bank)
+        let _ = w.exec(&ix::withdraw(&s.banks[li], us.acct, us.wallet, us.toks[li], 0, Some(true), w.remaining_sorted(&us.acct, &[], &[s.banks[li].bank])));
+        let _ = w.exec(&ix::deposit(&s.banks[ai], us.acct, us.wallet, us.toks[ai], 1_000_000_000 * (1 + rng.below(500)), None));
+        for k in 0..12u32 {
+            let amt = 4_000_000_000_000u64 >> (2 * k);
+            let r = w.exec(&ix::borrow(&s.banks[li], us.acct, us.wallet, us.toks[li], amt, w.remaining_for(&us.acct, &[s.banks[li].bank])));
+            if r.is_ok() { break; }
+        }
+        (u, ai, li)
+    };
+    let mut v = rng.below(s.users.len() as u64) as usize;
+    if v == u { v = (v + 1) % s.users.len(); }
+    let (le_key, lq_key) = (s.users[u].acct, s.users[v].acct);
+    // shrink the liquidatee's collateral so that it is (often) unhealthy at maintenance level; two times out of three the
+    // factor is searched for: the mildest shrink (in steps of 2 %) after which the real engine calls the account unhealthy
+    let shrink = |w: &mut World, per_mille: i128| {
+        let mut a = w.marginfi_account(&le_key);
+        for bal in a.lending_account.balances.iter_mut().filter(|x| x.is_active()) {
+            let sh = bits(bal.asset_shares);
+            if sh > 0 { bal.asset_shares = I80F48::from_bits(sh / 1000 * per_mille).into(); }
+        }
+        w.set_marginfi_account(&le_key, &a);
+    };
+    if rng.chance(2, 3) {
+        let mut found = None;
+        for step in 0..50 {
+            let pm = 1000 - 20 * step;
+            let mut w2 = w.clone();
+            shrink(&mut w2, pm);
+            let r = w2.exec(&ix::pulse_health(le_key, w2.remaining_in_slot_order(&le_key)));
+            if r.is_ok() {
+                let hc = w2.marginfi_account(&le_key).health_cache;
+                if bits(hc.asset_value_maint) < bits(hc.liability_value_maint) {
+                    found = Some(pm);
+                    break;
+                }
+            }
+        }
+        if let Some(pm) = found {
+            shrink(&mut w, pm - *rng.pick(&[0i128, 0, 10, 50]));
+        }
+    } else if rng.chance(1, 2) {
+        shrink(&mut w, *rng.pick(&[100i128, 300, 500, 700, 900]));
+    }
+    let mut signer = s.users[v].wallet;
+    for _ in 0..(if rng.chance(2, 3) { 0 } else { 1 + rng.below(2) }) {
+        match rng.below(10) {
+            0 => {
+                let _ = w.exec(&ix::panic_pause(s.fee_admin));
+                let _ = w.exec(&ix::propagate_fee_state(s.group));
+            }
+            1 => {
+                let mut a = w.marginfi_account(&lq_key);
+                a.account_flags |= *rng.pick(&[ACCOUNT_DISABLED, ACCOUNT_IN_FLASHLOAN, ACCOUNT_IN_RECEIVERSHIP, ACCOUNT_FROZEN]);
+                w.set_marginfi_account(&lq_key, &a);
+            }
+            2 => {
+                let mut a = w.marginfi_account(&le_key);
+                a.account_flags |= *rng.pick(&[ACCOUNT_DISABLED, ACCOUNT_IN_FLASHLOAN, ACCOUNT_IN_RECEIVERSHIP, ACCOUNT_FROZEN]);
+                w.set_marginfi_account(&le_key, &a);
+            }
+            3 | 4 => {
+                let hb = s.banks[if rng.chance(1, 2) { ai } else { li }];
+                let mut bk = w.bank(&hb.bank);
+                bk.config.operational_state = *rng.pick(&[BankOperationalState::Paused, BankOperationalState::ReduceOnly, BankOperationalState::KilledByBankruptcy]);
+                w.set_bank(&hb.bank, &bk);
+            }
+            5 => {
+                match rng.below(3) {
+                    0 => { let mut a = w.marginfi_account(&lq_key); a.group = w.new_key(); w.set_marginfi_account(&lq_key, &a); }
+                    1 => { let mut a = w.marginfi_account(&le_key); a.group = w.new_key(); w.set_marginfi_account(&le_key, &a); }
+                    _ => { let hb = s.banks[if rng.chance(1, 2) { ai } else { li }]; let mut bk = w.bank(&hb.bank); bk.group = w.new_key(); w.set_bank(&hb.bank, &bk); }
+                }
+            }
+            6 => ai = li,
+            7 => {
+                let hb = s.banks[if rng.chance(1, 2) { ai } else { li }];
+                let mut bk = w.bank(&hb.bank);
+                bk.config.asset_tag = *rng.pick(&[ASSET_TAG_STAKED, ASSET_TAG_SOL, ASSET_TAG_KAMINO]);
+                w.set_bank(&hb.bank, &bk);
+            }
+            8 => w.advance(*rng.pick(&[1i64, 3600, 86400, 31_536_000])),
+            _ => signer = *rng.pick(&[stranger, s.admin]),
+        }
+    }
+    let (ha, hl) = (s.banks[ai], s.banks[li]);
+    let dep_tokens: u64 = {
+        let sh = w.marginfi_account(&le_key).lending_account.get_balance(&ha.bank).map(|x| bits(x.asset_shares)).unwrap_or(0);
+        ((num_bigint::BigInt::from(sh) * num_bigint::BigInt::from(bits(w.bank(&ha.bank).asset_share_value))) >> 96u32).try_into().unwrap_or(u64::MAX)
+    };
+    let amount: u64 = match rng.below(12) {
+        0 => 0,
+        1 => 1,
+        2 => dep_tokens,
+        3 => dep_tokens.saturating_add(1),
+        4 => dep_tokens.saturating_mul(2),
+        5 => dep_tokens / 2,
+        6 | 7 => (dep_tokens / (2 + rng.below(50))).max(1),
+        _ => (dep_tokens / (50 + rng.below(2000))).max(1),
+    };
+    // fabricated keys cannot be ranked / have no risk view: only the scenario's own banks appear here
+    let ixn = ix::liquidate(
+        &ha, &hl, lq_key, signer, le_key, amount,
+        w.oracle_metas_for(&ha.bank), w.oracle_metas_for(&hl.bank),
+        w.remaining_for(&lq_key, &[ha.bank, hl.bank]), w.remaining_for(&le_key, &[]),
+    );
+    let g0 = w.group(&s.group);
+    let (lq0, le0) = (w.marginfi_account(&lq_key), w.marginfi_account(&le_key));
+    let bank_keys: Vec<Pubkey> = s.banks.iter().map(|x| x.bank).collect();
+    let mut keys = Keys::new(&bank_keys);
+    let paused = g0.panic_state_cache.is_paused_flag() && !g0.panic_state_cache.is_expired(w.clock_ts);
+    let mut parts: Vec<String> = vec![
+        "wd.liq".to_string(),
+        w.clock_ts.to_string(),
+        format!(
+            "{} {} {} {} {} {} {} {}",
+            keys.any(&s.group), keys.any(&g0.admin), keys.any(&g0.risk_admin), paused as u8, bits(g0.fee_state_cache.program_fee_rate),
+            g0.deleverage_withdraw_window_cache.daily_limit, g0.deleverage_withdraw_window_cache.withdrawn_today, g0.deleverage_withdraw_window_cache.last_daily_reset_timestamp
+        ),
+    ];
+    parts.push(acct_line(&lq0, &lq_key, &mut keys));
+    parts.push(acct_line(&le0, &le_key, &mut keys));
+    parts.push(keys.any(&signer).to_string());
+    parts.push(bank_line(&w, &ha, &g0, &mut keys));
+    parts.push(bank_line(&w, &hl, &g0, &mut keys));
+    parts.push(bank_keys.len().to_string());
+    for k in &bank_keys {
+        parts.push(format!("{} {}", keys.bank(k), risk_line(&w, k)));
+    }
+    parts.push(amount.to_string());
+    let head = parts.join(" ");
+    // (what LEAVES the liquidity vault: with a transfer-fee mint the insurance vault receives less than is sent)
+    let iv0 = w.token_amount(&hl.liquidity_vault);
+    // directed search: half of the cases look for a shrink factor / seize amount that the real instruction accepts
+    match w.exec(&ixn) {
+        Ok(()) => {
+            let (lq1, le1) = (w.marginfi_account(&lq_key), w.marginfi_account(&le_key));
+            let (ba, bl) = (w.bank(&ha.bank), w.bank(&hl.bank));
+            Some(format!(
+                "{} => ok {} {} {} {} {} {} {}",
+                head, slots_line(&lq1, &keys), slots_line(&le1, &keys), B::from_bank(&ba).line(), ba.last_update, B::from_bank(&bl).line(), bl.last_update,
+                iv0 - w.token_amount(&hl.liquidity_vault)
             ))
         }
         Err(ExecErr::Custom(code)) if code >= 6000 => Some(format!("{} => err {}", head, code)),
